@@ -136,6 +136,18 @@ func genGroup(c *cf.Case, r *cf.Rng, prop string) {
 		}
 		for j := 0; j < nev; j++ {
 			ev := cf.Op{Op: "cancel", Actor: i, ThinkUs: int64(r.Range(1000, int(end)))}
+			if len(topics) > 1 && (storm && r.Intn(3) == 0 || !storm && r.Intn(6) == 0) {
+				// the application changes its subscription and calls Consume again
+				ev.Op = "resub"
+				for _, t := range topics {
+					if r.Bool() {
+						ev.Args = append(ev.Args, t)
+					}
+				}
+				if len(ev.Args) == 0 {
+					ev.Args = []string{topics[r.Intn(len(topics))]}
+				}
+			}
 			c.Workload = append(c.Workload, ev)
 		}
 		if r.Intn(3) == 0 {
